@@ -80,6 +80,13 @@ Proof.
     repeat match goal with |- context [(?p =? ?q)%Z] => destruct (p =? q)%Z end; reflexivity.
 Qed.
 
+(* the index: a controller is listed under its referenced resource iff its rule is an associated-resource
+   rule and it owns an independent write statistic *)
+Lemma refStat_member_ok not_assoc reuse_resource_stat write_nonnil :
+  acted (flow_refStat_member_step not_assoc reuse_resource_stat write_nonnil)
+  = negb not_assoc && negb reuse_resource_stat && write_nonnil.
+Proof. unfold flow_refStat_member_step, acted. destruct not_assoc, reuse_resource_stat, write_nonnil; reflexivity. Qed.
+
 (* the batch recorded by both loops is the request's batch count *)
 Lemma standalone_feed_amount b :
   snd (flow_standalone_own_step b false false 0 true) = [(1, [LZ b])]
@@ -89,3 +96,4 @@ Proof. split; reflexivity. Qed.
 Print Assumptions flow_Slot_Check_step_reject.
 Print Assumptions standalone_feed_ok.
 Print Assumptions standalone_feed_amount.
+Print Assumptions refStat_member_ok.
